@@ -44,3 +44,43 @@ contract(
     ghost={"post_uses_final_locals": True},
     modifies=[],
 )
+
+# the conjunction builders (where / having / on / qualify ...): with copy=True the result is never the instance itself -- also when
+# there is nothing to add -- and the instance is not written
+contract(
+    CORE, "_apply_conjunction_builder", props=["C09"],
+    types={"expressions": "tuple", "instance": "Expression", "arg": "str", "into": "any", "append": "bool", "copy": "bool", "dialect": "any", "opts": "any"},
+    ensures=[
+        "implies(copy, fresh(result))",
+        "implies(not copy, result is instance)",
+    ],
+    raises={"Exception": []},
+    modifies=["fresh", "implies(not copy, instance.*)"],
+    opaque={
+        "instance.copy": dict(returns="fresh:Expression"),
+        "and_": dict(returns="fresh:Expression", raises=["Exception"]),
+        "into": dict(returns="fresh:Expression"),
+        "inst.set": dict(returns="any"),
+        "inst.args.get": dict(returns="any"),
+    },
+    must_fail=["result is instance"],
+)
+
+contract(
+    CORE, "_apply_builder", props=["C09"],
+    types={"expression": "any", "instance": "Expression", "arg": "str", "copy": "bool", "prefix": "str|none", "into": "any", "dialect": "any", "into_arg": "str", "opts": "any"},
+    ensures=["implies(copy, fresh(result))", "implies(not copy, result is old(instance))"],
+    raises={"Exception": []},
+    modifies=["fresh"],   # the instance handed in is written only through set() on the object returned by maybe_copy
+    opaque={
+        "_is_wrong_expression": dict(returns="bool", pure=True),
+        "into": dict(returns="fresh:Expression"),
+        "maybe_parse": dict(returns="any", raises=["Exception"]),
+        "instance.set": dict(returns="any"),
+        "instance.copy": dict(returns="fresh:Expression"),
+    },
+    must_fail=["result is old(instance)"],
+)
+
+# _apply_list_builder / _apply_child_list_builder build their argument lists in comprehensions / loops that call maybe_parse per element:
+# outside the engine's comprehension support; they stay with the bounded builder family of bounded/c09.py.
